@@ -7,14 +7,66 @@ All rules are phrased on roles and values, not on spelling:
   `struct.Struct(fmt).size`;
 * guards are the dominating branch edges of the CFG (early return / continue / nested if / conditional expression are the
   same thing), flags and "value or None" temporaries are narrowed to the definition compatible with the test (`_narrow`);
-* seek() is executed symbolically per whence value (`_exec_seek`), the constructor / read_nonce / the scan loop are
-  simulated as straight-line cursor movements (`_simulate`, byte spans instead of "the first read"/"the second read");
+* the paths of seek() are walked once per whence constant of the io protocol (`_exec_seek`: the dispatch on `whence` is
+  specialised to SEEK_SET / SEEK_CUR / SEEK_END, the offset stays a symbol, offset arithmetic is kept as polynomials); the
+  constructor / read_nonce / one iteration of the scan loop are read as straight-line cursor movements of a symbolic
+  cursor typestate (`_simulate`: position polynomials and byte spans `raw[<poly> : +k]` with k a constant of the code,
+  instead of "the first read"/"the second read"; anything conditional gives `undecided`);
 * the underlying file is "whatever expression has `self.fh` as its origin"; the read accounting of read() is done on
   *trackers* (bytes accumulator, list of words that is joined, in-memory stream, byte counter counting up or down)
   and on the CFG specialised to "n > 0 and more than n bytes consumed", not on the literal `data += ...`;
 * helpers of the module that the normaliser could not inline are followed where the rule needs them (R4);
 * a verdict is `violated` only when the construct was located and is expressed in the vocabulary of the rule; a
   polynomial with foreign atoms, a shape the rule does not understand, or a missing anchor construct gives `undecided`.
+
+Technique
+---------
+(numbers: ALLOWED list 1-6 of RULES_GUIDE.md "What counts as *static* here".)  No rule runs /repo code or pushes data chosen
+by the checker (file contents, file lengths, offsets, read sizes) through it: positions, offsets, n and the scan variable
+are symbols throughout, the only numbers are constants written in /repo (read sizes, slice bounds, struct formats, the
+marker) and the three whence constants of the io protocol (`_WHENCE`, a reference table).  No loop is unrolled: the scan
+loop and the decode loop are read once with their loop-carried values symbolic; `for _ in range(3)` in this file are
+fixpoint rounds of the analysis over names/collections, not over inputs.
+
+* R1 (header length): 1 (roles: receiver with origin `self.fh`, resolved `@property`/accessors, `bind_args` of utils.unpack),
+  3 (terms by substituting single definitions; polynomial normal form `_poly`; per-path symbolic environment of seek() in
+  `_exec_seek`; symbolic cursor typestate `_simulate`/`_span_of`; one scan-loop iteration with the offset symbolic),
+  2 (dominating branch edges -> linear integer facts `_linear_facts`, equalities `_equalities`), 5 (seek(): case analysis
+  over SEEK_SET/SEEK_CUR/SEEK_END - the branch tests / `match` cases / constant-keyed dict lookups on `whence` become constant
+  under the case; None / not None and flag narrowing `_narrow`), 6 (`_const`: constant folding incl. `len(<constant>)` and
+  `struct.calcsize(<constant format>)`).  Lemmas: L1 cursor typestate, L2 span slicing, L3 u32/XOR, L4 integer order.
+* R2 (read accounting): 1, 2 (CFG reachability / dominance / `all_paths_pass` on the CFG specialised under the named
+  assumptions "n == 0", "n > 0", "the chunk just read is non-empty", "more than n bytes consumed"), 3 (reaching definitions
+  of chunk / accumulator / returned value; give-back offset and truncation bound compared as polynomials over n,
+  <bytes consumed>, <raw position>), 4 (length domain: trackers stand for the symbol <bytes consumed>).  Lemmas: L5
+  length-preserving wrappers, L6 trackers, L7 give-back.
+* R3 (rolling key): 1 (resolved utils.xor / read_nonce, `bind_args`), 3 (reaching definitions of the key operand inside /
+  outside the decode loop, chunk provenance; read_nonce as cursor typestate from the symbol <raw position>), 2 (`all_paths_pass`:
+  key updated on every iteration, after its use, before the next read), 6 (read size constant).  Lemmas: L1.
+* R4 (detection): 1 (resolved callees, helpers of the module followed, argument binding, roles mapped through the single call
+  site), 2 (dominance of the validation and the rewind; CFG specialised under "the MZ validation failed"; raise / fall-off
+  exits), 3 (reaching definitions of the returned view; def-use provenance of the candidate collection; range arguments /
+  counter init, step and bound as polynomials - the loop is read once), 5 (None / not None alternatives of the candidate),
+  6 (marker constant compared with the reference value, default arguments of find_mz_offset).  Lemmas: L4, L8 scan coverage.
+* R5: the scanner obligations of rules/c15.py (`scanner_obligations`), imported unchanged - see that module: structural
+  shape, interval abstract interpretation `absint.Interp`, polynomials, CFG (devices 1-4).
+
+Lemmas / library model relied on (also listed in `rep.trusted_base`):
+  L1  io cursor typestate: after `seek(p, SEEK_SET)` the position is p, after `seek(d, SEEK_CUR)` it is pos + d, `tell()`
+      returns pos, `read(k)` (k >= 0 a constant of the code, no short read) returns raw[pos : pos + k] and leaves pos + k.
+  L2  `x[lo:hi]` of the span (s, k) with constants 0 <= lo <= hi <= k is the span (s + lo, hi - lo) (slice semantics of bytes).
+  L3  u32le(a) ^ u32le(b) == u32le(xor(a, b)) for 4-byte words: the unsigned little-endian decode maps bit j of byte i to
+      bit 8*i + j (a bijection of bit positions) and XOR is bitwise; "<I"/"<L", int.from_bytes(.., "little", signed=False) and
+      utils.unpack(size=4, byteorder="little", signed=False) are that decode.
+  L4  over the integers `a < b` iff `a - b + 1 <= 0` (and the mirrored / negated forms): branch edges become facts `p <= 0`.
+  L5  `len(xor(data, key)) == len(data)`, `len(bytes(x)) == len(bytearray(x)) == len(x)` (length-preserving wrappers).
+  L6  an accumulator that starts empty and receives every chunk exactly once (`+=`, `.extend`, `.append` + `b"".join`,
+      `BytesIO.write` + `getvalue()`/`tell()` of a stream that is only written, `k += len(chunk)` from k0) has length
+      (resp. value - k0, sign-adjusted) equal to the number of bytes consumed from the underlying file.
+  L7  having consumed c bytes from position p0, a relative seek by n - c (or an absolute one to tell() + n - c, resp.
+      <tell before the reads> + n) leaves the underlying file at p0 + n: exactly the n bytes that `acc[:n]` returns.
+  L8  `range(0, m, 1)` - or a counter that starts at 0, advances by exactly 1 per iteration and is used under `i < m` -
+      visits every integer 0 .. m - 1.
 """
 
 from __future__ import annotations
@@ -384,8 +436,9 @@ def _equalities(ctx, f, node) -> List[ast.Compare]:
 
 
 def _simulate(ctx, f, calls, start: SymPoly, poly, rawnames=(RAW,), scope=None):
-    """Walk straight-line seek/read calls on the underlying file (those directly in `scope`, default the function body):
-    returns (final position | None, {id(read): (start, len)}, problem | None)."""
+    """Symbolic cursor typestate: walk the straight-line seek/read calls on the underlying file (those directly in `scope`,
+    default the function body) once; positions are polynomials over symbols, read sizes are constants of the code, nothing
+    conditional is followed.  Returns (final position | None, {id(read): (start, len)}, problem | None)."""
     fv = FuncView.of(f.node)
     pos: Optional[SymPoly] = start
     spans: Dict[int, Tuple[SymPoly, int]] = {}
@@ -442,14 +495,40 @@ def _span_of(ctx, f, e, spans, depth: int = 0):
 def run(ctx):
     rep = ctx.rep
     rep.explanation = (
-        "Static analysis of xordecode.py: the header length is compared as a polynomial (nonce_offset + 8) across tell(), "
-        "seek(SEEK_SET), the cursor after __init__, the size relation of iter_nonce_offsets and the first-word boundary of "
-        "read_nonce; read() is checked for read accounting (every path returns exactly the bytes it consumed: either the "
-        "whole decoded data, or a truncation preceded by a relative give-back seek of n - <bytes consumed>; n == 0 consumes "
-        "nothing); the rolling key chains on ciphertext; detection returns a candidate only after the MZ validation and a rewind."
+        "Static analysis of xordecode.py (no code of the package is run, no data is fed through it): the header length is "
+        "compared as a polynomial (nonce_offset + 8) across tell(), seek() - its paths followed once per whence constant "
+        "SEEK_SET/SEEK_CUR/SEEK_END with the offset symbolic -, the cursor after __init__ (symbolic cursor typestate: position "
+        "polynomials and byte spans), the size relation of iter_nonce_offsets (equalities on the dominating branch edges of the "
+        "yield; one scan iteration with the offset symbolic) and the first-word boundary of read_nonce (linear facts from the "
+        "dominating branch edges); read() is checked for read accounting on its CFG specialised under the named assumptions "
+        "n == 0 / n > 0 / non-empty chunk / more than n bytes consumed (every path returns exactly the bytes it consumed: "
+        "either the whole decoded data, or a truncation preceded by a relative give-back seek of n - <bytes consumed>; n == 0 "
+        "consumes nothing); the rolling key chains on ciphertext (reaching definitions of the key operand, every-iteration / "
+        "after-use path conditions); detection returns a candidate only after the MZ validation and a rewind (dominance, "
+        "None-case analysis, def-use provenance of the candidate collection, scan range as polynomials)."
     )
-    rep.not_decided = ["plaintext equality for all seek/read histories", "most_common ordering of candidates"]
-    rep.trusted_base = ["CPython ast", "networkx dominators", "SymPoly normal form"]
+    rep.not_decided = [
+        "plaintext equality for all seek/read histories",
+        "most_common ordering of candidates",
+        "short reads of the header words / OSError paths of read_nonce (the cursor typestate assumes reads of k bytes return k bytes)",
+        "seek() forms in which a test that matters does not become constant under whence == SEEK_SET/SEEK_CUR/SEEK_END, cursor "
+        "movements under a condition in __init__/read_nonce/the scan iteration, accumulators other than bytes/list/stream/counter: undecided",
+    ]
+    rep.trusted_base = [
+        "CPython ast", "networkx dominators", "SymPoly normal form",
+        "io protocol: whence vocabulary SEEK_SET=0, SEEK_CUR=1, SEEK_END=2; seek(p, SET) -> p, seek(d, CUR) -> pos + d, "
+        "read(k) returns raw[pos : pos + k] and leaves pos + k (L1); x[lo:hi] of a span (s, k), 0 <= lo <= hi <= k, is (s + lo, hi - lo) (L2)",
+        "lemma L3: u32le(a) ^ u32le(b) == u32le(xor(a, b)) for 4-byte words (little-endian unsigned decode is a bijection of bit "
+        "positions, XOR is bitwise); '<I'/'<L', int.from_bytes(.., 'little', signed=False), utils.unpack(size=4, little, unsigned) are that decode",
+        "lemma L4: over the integers a < b iff a - b + 1 <= 0 (branch edges as linear facts)",
+        "lemma L5: len(xor(data, key)) == len(data); bytes()/bytearray()/memoryview() preserve length",
+        "lemma L6: an initially empty bytes accumulator / joined word list / write-only BytesIO / byte counter that receives every "
+        "chunk exactly once measures the bytes consumed from the underlying file",
+        "lemma L7: after consuming c bytes from p0, a relative seek by n - c (absolute: tell() + n - c) leaves the file at p0 + n",
+        "lemma L8: range(0, m, 1), or a counter from 0 stepped by exactly 1 and used under i < m, visits every integer 0 .. m - 1",
+        "struct.calcsize on constant format strings of the code (constant folding)",
+        "scanner obligations of rules/c15.py (imported as R5)",
+    ]
     r1(ctx)
     r2(ctx)
     r3(ctx)
@@ -492,8 +571,11 @@ def _r1_tell(ctx):
 
 
 def _exec_seek(ctx, f, off: str, wh: str, v: int):
-    """Run seek(offset, whence) symbolically for whence == v (structured statements, tests on whence decided, offset
-    arithmetic kept as polynomials): (status 'done'|'fall'|'unknown', [(call, offset poly, whence passed)])."""
+    """Path-wise value flow through seek(offset, whence) under the named assumption whence == v, v one of the whence
+    constants of the io protocol (case analysis over a finite vocabulary; constant propagation through the dispatch): the
+    structured statements are walked once, tests that become constant under the assumption select the branch, any other
+    test that matters gives 'unknown', the offset is a symbol and offset arithmetic is kept in polynomial normal form; no
+    loop is entered.  Returns (status 'done'|'fall'|'unknown', [(call, offset poly, whence passed)])."""
     fn = f.node
     env: Dict[str, Optional[SymPoly]] = {wh: SymPoly.const(v)}
     seeks: List[Tuple[ast.Call, Optional[SymPoly], Optional[int]]] = []
@@ -647,7 +729,7 @@ def _r1_seek(ctx):
     off, wh = ps[1], ps[2]
     OFF = SymPoly.atom(off)
     served = {}
-    for v, name in ((0, "SEEK_SET"), (1, "SEEK_CUR"), (2, "SEEK_END")):
+    for name, v in _WHENCE.items():  # case analysis over the whence vocabulary of the io protocol (reference table)
         status, seeks = _exec_seek(ctx, seek, off, wh, v)
         text = f"seek(offset, {name})"
         if status == "unknown" or len(seeks) > 1:
